@@ -54,7 +54,7 @@ func c14Eq(a, b []string) bool {
 
 func c14Compare(r *vReport, what, family, desc, src string, got, want []string, extra map[string]any) {
 	if !c14Eq(got, want) {
-		rp := map[string]any{"desc": desc, "src": src}
+		rp := map[string]any{"desc": desc, "src": src, "what": what, "family": family, "want": want}
 		for k, v := range extra {
 			rp[k] = v
 		}
@@ -689,14 +689,52 @@ func TestVerifC14(t *testing.T) {
 	r.Extra["assumptions"] = []string{"for bundled actions the table itself is the declaration (its content is not frozen)", "assignability per docs/checks.md: string <- string|number, number <- number, boolean <- anything, anything <- any"}
 	root := vTempDir(t, "c14-")
 	if raw := vReplayInput(); raw != nil {
-		var rp struct{ Desc, Src, Callee, ActionYml string }
-		jsonUnmarshal(raw, &rp)
-		fmt.Printf("replay: %s\ncaller / workflow:\n%s\ncallee:\n%s%s\nre-run the check for a verdict\n", rp.Desc, rp.Src, rp.Callee, rp.ActionYml)
-		r.Class("replay", true)
-		if rp.Callee == "" && rp.ActionYml == "" {
-			res := vLint(rp.Src, nil)
-			fmt.Printf("diagnostics: %v\n", vDiagStrings(res.Errs))
+		var rp struct {
+			Desc, Src, Callee, What, Family string
+			ActionYml                       string `json:"action_yml"`
+			Want                            []string
 		}
+		jsonUnmarshal(raw, &rp)
+		res := map[string]*regexp.Regexp{"missing-required-input": c14MissingRe, "undeclared-input": c14ExtraRe, "undeclared-output": c14PropRe,
+			"missing-required-secret": c14SecMissingRe, "undeclared-secret": c14SecExtraRe, "type-error": c14TypeRe}
+		if strings.HasPrefix(rp.Family, "reusable-workflow") {
+			res["missing-required-input"], res["undeclared-input"] = c14WfMissingRe, c14WfExtraRe
+		}
+		for k := 0; k < 2; k++ {
+			var errs []*Error
+			switch {
+			case rp.ActionYml != "":
+				dir := filepath.Join(root, "replay-la")
+				vWriteFiles(t, dir, map[string]string{".git/HEAD": "x\n", "act/action.yml": rp.ActionYml, ".github/workflows/w.yml": rp.Src})
+				errs = c01LintFileCopy(dir, filepath.Join(dir, ".github/workflows/w.yml")).Errs
+			case rp.Callee != "":
+				dir := filepath.Join(root, "replay-wf")
+				vWriteFiles(t, dir, map[string]string{".git/HEAD": "x\n", ".github/workflows/callee.yml": rp.Callee, ".github/workflows/caller.yml": rp.Src})
+				if strings.HasSuffix(rp.Family, "-ast") {
+					var all []*Error
+					vsched.Replay(vsched.Config{NumCPU: 1}, nil, func(x *vsched.Exec) string {
+						var out bytes.Buffer
+						l, _ := NewLinter(&out, &LinterOptions{WorkingDir: dir})
+						all, _ = l.LintFiles([]string{filepath.Join(dir, ".github/workflows/callee.yml"), filepath.Join(dir, ".github/workflows/caller.yml")}, nil)
+						return ""
+					})
+					for _, e := range all {
+						if strings.HasSuffix(e.Filepath, "caller.yml") {
+							errs = append(errs, e)
+						}
+					}
+				} else {
+					errs = c01LintFileCopy(dir, filepath.Join(dir, ".github/workflows/caller.yml")).Errs
+				}
+			default:
+				errs = vLint(rp.Src, nil).Errs
+			}
+			fmt.Printf("replay %d: %s\n%s\ncallee/action:\n%s%s\ndiagnostics: %v\n", k, rp.Desc, rp.Src, rp.Callee, rp.ActionYml, vDiagStrings(errs))
+			if re, ok := res[rp.What]; ok {
+				c14Compare(r, rp.What, rp.Family, rp.Desc, rp.Src, c14Set(errs, re), rp.Want, map[string]any{"callee": rp.Callee, "action_yml": rp.ActionYml})
+			}
+		}
+		r.Class("replay", true)
 		return
 	}
 	var idx int64
